@@ -236,6 +236,44 @@ let rec run_case (kind : string) (body : sexp list) : string * string =
         else sts in
       let connected = (match atom (List.nth body 1) with "never" | "dead" -> false | _ -> true) in
       (show_segs (run_finalize_segs_from connected sh sts), "UNSPECIFIED")
+  | "timedchain" ->
+      (* (timedchain FORM OP (pre U...) (post U...) (labels ...)): the composition of the three models - the chain in
+         front feeds the timed system synchronously, its deliveries feed the chain behind it, and once that chain
+         reports finished the timed operator's downstream does (LFinish) *)
+      let o = top_of (List.nth body 1) in
+      let (pre, _) = subscribe_chain (expand_all (List.map uop_of (args (List.nth body 2)))) in
+      let (post, _) = subscribe_chain (expand_all (List.map uop_of (args (List.nth body 3)))) in
+      let ls = List.map tlab_of (args (List.nth body 4)) in
+      let s = ref (tinit o) and pre = ref pre and post = ref post and finished = ref false in
+      let out = ref [] in
+      let emit x = out := x :: !out in
+      let step (l : tlab) =
+        let (s', touts) = tstep o !s l in
+        s := s';
+        List.iter (fun t -> match t with
+            | TOut (at, e) ->
+                let (post', evs) = push !post [e] in
+                post := post';
+                List.iter (fun y -> emit (TOut (at, y))) evs
+            | x -> emit x) touts;
+        if not !finished && chain_fin !post false then begin
+          finished := true;
+          let (s'', _) = tstep o !s LFinish in s := s''
+        end in
+      List.iteri (fun j l ->
+          emit (TMark (nat_of_int j));
+          match l with
+          | LSrc e ->
+              (* the chain in front is subscribed to the subject when the operator subscribes its input
+                 (delay_subscription / subscribe_on: when their task has run) and until it is unsubscribed *)
+              if !s.src_on then begin
+                let (pre', evs) = push !pre [e] in
+                pre := pre';
+                List.iter (fun y -> step (LSrc y)) evs
+              end else step (LSrc e)      (* nobody is subscribed: dropped, but a terminal ends the subject itself *)
+          | l -> step l) ls;
+      let r = show_touts (List.rev !out) in
+      (r, "UNSPECIFIED")
   | "ileave2" -> ("-", "UNSPECIFIED")
   | "ileave" ->
       let (v0, setup, scripts, sched) = ileave_parts body in
@@ -545,6 +583,19 @@ let oracle (kind : string) (body : sexp list) (impl : string) : string option =
         Some "known:behavior-race the value stored in the thread-safe BehaviorSubject is not the one delivered last in the common order"
       else if not (joiner_ok v0 setup scripts tr e) then
         Some "known:behavior-race a subscriber joining a thread-safe BehaviorSubject while others emit was handed a stale value or missed a later item"
+      else Some "ok"
+  | "timedchain" ->
+      if String.length impl >= 5 && String.sub impl 0 5 = "PANIC" then Some "reject:panic" else
+      let ls = List.map tlab_of (args (List.nth body 4)) in
+      let toks = (match parse ("(" ^ impl ^ ")") with List l -> l | _ -> []) in
+      let delivered = List.filter_map (function List [Atom "t"; _; e] -> Some (ev_of e) | _ -> None) toks in
+      let rec quiet gone = function
+        | [] -> true
+        | List [Atom "m"; j] :: r -> quiet (gone || List.nth_opt ls (int_of j) = Some LUnsub) r
+        | List [Atom "t"; _; _] :: r -> not gone && quiet gone r
+        | _ :: r -> quiet gone r in
+      if not (wf delivered) then Some "reject:C01 a notification after the terminal, or a second terminal"
+      else if not (quiet false toks) then Some "reject:C02 a notification after unsubscribe() returned"
       else Some "ok"
   | "ileave2" ->
       if impl = "-" then Some "ok" else
